@@ -68,10 +68,13 @@ def api_consistency(obj, new, text, dump_kwargs=None, before=None, pipe=True):
         if obj.dumps(**kw) != text:
             problems.append("a second dumps() differs from the first")
         outs = []
-        for how in ("path", "file", "loads") + (("pipe",) if pipe else ()):
+        for how in ("path", "file", "loads") + (("pipe", "binary") if pipe else ()):
             o = new()
             if how == "path":
                 o.load(p1)
+            elif how == "binary":
+                with open(p1, "rb") as f:           # a file object opened in binary mode (JSON formats)
+                    o.load(f)
             elif how == "file":
                 with open(p1) as f:
                     o.load(f)
